@@ -121,9 +121,14 @@ def ops_for_factory(full, with_parquet_depth):
             ops += [("mask", tuple((i * 5 + k) % 3 != 0 for i in range(n))) for k in range(3)]
         rng = list(range(-min(n, 3), min(n, 4)))
         idxs = [()] + [(i,) for i in rng] + [(i, j) for i in rng for j in rng]
-        ops += [("take", idx, False) for idx in idxs]
+        # triples: every non-decreasing and every non-increasing index triple (duplicates and gaps)
+        tri = [t for t in itertools.combinations_with_replacement(rng, 3)]
+        idxs3 = tri + [t[::-1] for t in tri if t[::-1] != t]
+        ops += [("take", idx, False) for idx in idxs + idxs3]
+        ops += [("getitem_list", idx) for idx in tri[::3]]
         idxs_f = [()] + [(i,) for i in range(-1, min(n, 4))] + [(i, j) for i in range(-1, min(n, 4)) for j in range(-1, min(n, 4))]
         ops += [("take", idx, True) for idx in idxs_f]
+        ops += [("take", t, True) for t in itertools.combinations_with_replacement(range(-1, min(n, 4)), 3)]
         ops += [("getitem_list", idx) for idx in idxs[:12]]
         if n <= 8:
             ops += [("concat_self",), ("concat_base",), ("concat_base_first",)]
